@@ -102,6 +102,11 @@ def make_gate(desc, mode, rng):
         return gates.M(*q, collapse=bool(desc.get("collapse", False)), register_name=desc.get("reg"))
     if kind == "cb":
         return gates.CallbackGate(callbacks.Norm())
+    if kind == "ch":
+        # a noise channel: an ordinary (non-special, non-measurement) letter for fusion
+        if len(q) == 1:
+            return gates.PauliNoiseChannel(q[0], [("X", 0.125), ("Z", 0.25)])
+        return gates.DepolarizingChannel(tuple(q), 0.25)
     if kind == "fin":
         # a FusedGate given as INPUT (e.g. the output of an earlier fuse)
         fg = gates.FusedGate(*q)
@@ -340,7 +345,27 @@ def gen_fused_inputs(rng):
     return n, out
 
 
-def gen_case(rng, i):
+def gen_nonunitary(rng):
+    """unitaries interleaved with many non-unitary items: M (collapsing or not), noise channels, callbacks"""
+    n = rng.randint(2, 6)
+    out = []
+    for _ in range(rng.randint(4, 12)):
+        r = rng.random()
+        if r < 0.2:
+            out.append({"kind": "ch", "name": "Channel", "q": rng.sample(range(n), rng.choice([1, 1, 2]))})
+        elif r < 0.35:
+            out.append({"kind": "M", "name": "M", "q": rng.sample(range(n), rng.randint(1, min(2, n))),
+                        "collapse": rng.random() < 0.5})
+        elif r < 0.4:
+            out.append({"kind": "cb", "name": "CallbackGate", "q": []})
+        else:
+            out.append(rand_gate(rng, n, p_m=0.0, p_cb=0.0, arity_w=(5, 5, 1)))
+    return n, out
+
+
+def gen_case(rng, i, channels=True):
+    if channels and i % 20 == 7:
+        return gen_nonunitary(rng)
     if i % 10 == 8:
         return gen_refuse(rng)
     if i % 10 == 9:
@@ -471,6 +496,8 @@ def exact_state(c, psi):
 def exec_fuse_check(n, descs, k, seed):
     """original vs fused circuit on Gaussian-integer gates and state; returns None if equal, else a dict"""
     rng = random.Random(seed)
+    if any(d["kind"] == "ch" for d in descs):
+        return "skip"          # a fused group containing a channel has no matrix (execution refuses)
     c = build(n, descs, "int", seed)
     if c.repeated_execution:
         return "skip"
@@ -688,7 +715,7 @@ def lc_cases(rng, count):
     cases = []
     i = 0
     while len(cases) < count:
-        n, descs = gen_case(rng, i)
+        n, descs = gen_case(rng, i, channels=False)   # Channel.on_qubits is not implemented (documented refusal)
         i += 1
         descs = add_updates(rng, descs)
         if not valid(n, descs):
@@ -864,17 +891,17 @@ def static_obligations(run):
             run.not_proved.append(f"{t} is a partial result (see comment in C07/Props.v)")
     run.notes["print_assumptions"] = pa
     run.not_proved += [
-        "light cone, last step: running the RE-INDEXED kept gates on |cone| qubits (with the reduced initial state) equals "
-        "running the kept gates on all n qubits and tracing out the rest; light_cone_reduced_state_matrices compares "
-        "full circuit and kept gates both on n qubits (the re-indexing map itself is proved to be an order-preserving "
-        "injection); the step is exercised by the exact-execution test only",
-        "light cone: dropped gates in controlled_by form (operator cembed): light_cone_reduced_state_matrices needs the "
-        "operator of every dropped gate as embed n qs U with U^+ U = 1 (proved for all gates not in controlled_by form, "
-        "plain_unitary_gates_qualify); cembed n cs ts M = embed n (cs++ts) (controlled M) is not proved",
-        "light cone: dropped non-unitary operations (collapsing measurements, channels) are outside "
-        "light_cone_reduced_state_matrices; the abstract light_cone_reduced_state covers them given its premise",
-        "matrix_fused (the matrix a FusedGate object computes = product of its members) belongs to C01 (ProofsFused); "
-        "here it is exercised by the exact-execution test"]
+        "light cone: dropped gates in controlled_by form (operator cembed): light_cone_reindexed_reduced_state needs the "
+        "operator of every DROPPED gate as embed n qs U with U^+ U = 1 (proved for all gates not in controlled_by form, "
+        "plain_unitary_gates_qualify); cembed n cs ts M = embed n (cs++ts) (controlled M) is not proved (kept gates may "
+        "be of any form)",
+        "light cone: dropped non-unitary operations (collapsing measurements, channels) are outside the matrix-level "
+        "theorem; the abstract light_cone_reduced_state covers them given its premise",
+        "light cone: that the reduced initial state Tr_{not cone}|0..0><0..0| is |0..0><0..0| on the cone (the theorem is "
+        "stated for every initial matrix rho with the reduced initial state on the right-hand side)",
+        "fusion: the real NumpyBackend.matrix_fused (scipy sparse, dtypes) vs C01's model of it is C01's correspondence; "
+        "here fused_execution_equals_original / fused_group_matrix use C01's model, and the exact-execution test runs "
+        "the real one"]
 
 
 def main(run):
@@ -884,9 +911,11 @@ def main(run):
                     "Base/Sem.v, SemPtrace.v, SemProps.v and C01/Spec.v (matrix semantics: gate_op, circ_op, sandwich, reduced; "
                     "gate_op_disjoint_commute and ptrace_ignores_outside are proved there, closed) used by C07/InstMat.v",
                     "harness/c07.py observation code (wraps _Queue.from_fused and Gate.on_qubits at run time)"]
-    run.assumptions += ["a FusedGate in the input circuit is an opaque special letter (its own matrix = product of its members is "
+    run.assumptions += ["noise channels are ordinary letters for fusion (the implementation may absorb them into a group, whose "
+                        "execution then refuses); they take part in the structural comparison and the certificate, not in "
+                        "the execution test nor in the light-cone stream (Channel.on_qubits is not implemented)",
+                        "a FusedGate in the input circuit is an opaque special letter (its own matrix = product of its members is "
                         "matrix_fused, exercised by the exact-execution test)",
-                        "circuits contain no noise channels (fusion absorbs a Channel into a FusedGate whose execution raises)",
                         "fuse_equiv_matrices / light_cone_reduced_state_matrices: every letter stands for a well-formed matrix "
                         "gate acting inside the letter's support (mvalid); exact arithmetic over a commutative semiring"]
     static_obligations(run)
@@ -899,7 +928,8 @@ def main(run):
         run.checker_cmds.append("coqchk -o -silent -Q theories QV QV.C07.Props")
         run.oblige("coqchk re-checks the compiled cone of C07/Props (no axioms)", rc == 0 and "Axioms: <none>" in out, "kernel-recheck")
     return run.finish(level="proof", rule=(
-        "random (n<=6, len<=12, arities 1-3, controlled gates, M incl. collapse, CallbackGate), circuits containing "
+        "random (n<=6, len<=12, arities 1-3, controlled gates, M incl. collapse, CallbackGate), circuits with many "
+        "non-unitary items (noise channels, collapsing and plain measurements, callbacks; fuse stream), circuits containing "
         "FusedGate inputs (outputs of a real fuse re-fused with another width; hand-made fused inputs), histories "
         "(about half of the cases update the parameters of ~half of the ordinary gates, incl. Unitary matrices, after "
         "construction via the gate setter or Circuit.set_parameters BEFORE fuse / light_cone; outputs must carry the "
